@@ -1300,14 +1300,19 @@ fn script_of(spec: &Spec, style_rng: &mut Rng) -> String {
     for (k, call) in spec.calls.iter().enumerate() {
         let place = match style {
             1 => 1,
-            2 => 2,
-            _ => style_rng.weighted(&[2, 3, 3, 1]),
+            2 => style_rng.weighted(&[0, 0, 2, 0, 1]),
+            _ => style_rng.weighted(&[2, 3, 3, 1, 2]),
         };
         let line = render_call(call, style == 3 && style_rng.chance(2, 3));
         match place {
             0 => s.push_str(&format!("{line}\n")),
             1 => s.push_str(&format!("make zz_i{k} get 0\njasi (zz_i{k} small pass 1) start\n    zz_i{k} get zz_i{k} add 1\n    {line}\nend\n")),
             2 => s.push_str(&format!("do zz_cfg{k}() start\n    {line}\nend\nzz_cfg{k}()\n")),
+            // the configuring function is called from a function that holds a command of its own
+            // under the same name: the call must reach the command of the defining scope
+            4 => s.push_str(&format!(
+                "do zz_cfg{k}() start\n    {line}\nend\ndo zz_via{k}() start\n    make c get command(\"/nonexistent/decoy\")\n    c.arg(\"decoy\")\n    zz_cfg{k}()\n    return 0\nend\nzz_via{k}()\n"
+            )),
             _ => s.push_str(&format!("if to say (true) start\n    {line}\nend\n")),
         }
     }
